@@ -115,6 +115,8 @@ struct Sched {
     locks: HashMap<usize, Lk>,
     hist: Vec<String>,
     pending: Vec<Option<String>>,
+    /// per thread: 1 = inside a poll whose private observer is not yet subscribed, 2 = subscribed (`V` logged)
+    poll_state: Vec<u8>,
     mismatch: Option<String>,
 }
 
@@ -166,6 +168,8 @@ fn hook(name: &'static str, addr: usize) {
         let s = g.as_mut().unwrap();
         s.grant = None;
         if let Some(ev) = s.pending[t].take() { s.hist.push(ev); }
+        // the first latch / future operation of a poll: its private observer is subscribed from here on
+        if s.poll_state[t] == 1 && (name.starts_with("latch.") || name.starts_with("future.")) { s.poll_state[t] = 2; s.hist.push(format!("V{}", t)); }
         if op == "wait" || op == "wait_timeout" {
             let l = s.locks.entry(addr).or_default();
             if l.writer == Some(t) { l.writer = None; } else { s.mismatch = Some(format!("wait-without-mutex:{}", t)); }
@@ -229,6 +233,11 @@ fn pend(ev: String) {
     let mut g = sched_lock();
     if let Some(s) = g.as_mut() { if s.gen == gen && !s.frozen { s.pending[t] = Some(ev); } }
 }
+fn set_poll_state(v: u8) {
+    let Some((gen, t)) = TID.with(|c| c.get()) else { return };
+    let mut g = sched_lock();
+    if let Some(s) = g.as_mut() { if s.gen == gen && !s.frozen { s.poll_state[t] = v; } }
+}
 fn my_tid() -> usize { TID.with(|c| c.get()).map(|x| x.1).unwrap_or(99) }
 
 // ---------------------------------------------------------------------------------------------
@@ -271,9 +280,9 @@ fn run_op(ctx: &Arc<Ctx>, t: usize, op: Op) {
             None => { hook("h.noop:pre", 0); rec(format!("n{}", t)); }
         },
         Op::Pub(e) => { pend(format!("P{}.{}", t, e)); ctx.publish(e); rec(format!("p{}.{}", t, e)); }
-        Op::Poll => { pend(format!("W{}", t)); let v = ctx.poll(); rec(format!("w{}.{}", t, v)); }
+        Op::Poll => { pend(format!("W{}", t)); set_poll_state(1); let v = ctx.poll(); set_poll_state(0); rec(format!("w{}.{}", t, v)); }
         Op::PollT => {
-            pend(format!("W{}", t));
+            pend(format!("W{}", t)); set_poll_state(1);
             match ctx.poll_timeout(Duration::from_secs(30)) { Ok(v) => rec(format!("w{}.{}", t, v)), Err(_) => rec(format!("w{}.timeout", t)) }
         }
         Op::Drop(o) => {
@@ -328,7 +337,7 @@ pub fn run_mode(kind: &str, behs: &[Beh], progs: &[Vec<Op>], sched: &[usize], fo
         let mut tb = ctx.table.lock().unwrap();
         for (i, b) in behs.iter().enumerate() { tb.push(Some(Arc::new(Obs { id: i, beh: *b, ctx: Arc::downgrade(&ctx), count: AtomicU32::new(0) }))); }
     }
-    *sched_lock() = Some(Sched { gen, force, frozen: false, abort: false, st: vec![St::Running; n], grant: None, locks: HashMap::new(), hist: Vec::new(), pending: vec![None; n], mismatch: None });
+    *sched_lock() = Some(Sched { gen, force, frozen: false, abort: false, st: vec![St::Running; n], grant: None, locks: HashMap::new(), hist: Vec::new(), pending: vec![None; n], poll_state: vec![0; n], mismatch: None });
     install_hook(Some(hook));
     let mut handles = Vec::new();
     for (t, prog) in progs.iter().enumerate() {
@@ -395,7 +404,8 @@ pub fn run_mode(kind: &str, behs: &[Beh], progs: &[Vec<Op>], sched: &[usize], fo
                   else { format!("{}:{}|{}|{}", if fin == "dead" { "dead" } else { "ok" }, if hist.is_empty() { "-" } else { &hist }, status, fin) };
     let t0 = Instant::now();
     let mut kicked = false;
-    while !handles.iter().all(|h| h.is_finished()) && t0.elapsed() < Duration::from_secs(2) {
+    // (threads that can still finish do so within microseconds; a thread left asleep by a lost wake-up never does)
+    while !handles.iter().all(|h| h.is_finished()) && t0.elapsed() < Duration::from_millis(400) {
         if !kicked && t0.elapsed() > Duration::from_millis(2) {
             let c2 = ctx.clone();
             let _ = std::panic::catch_unwind(std::panic::AssertUnwindSafe(|| c2.publish(4_000_000_000)));
@@ -444,6 +454,10 @@ pub fn exec(op: &str, a: &[&str]) -> Option<String> {
             let src = std::fs::read_to_string(format!("{}/src/util/rx.rs", env!("CG_REPO"))).unwrap_or_default();
             Some(format!("ok:nohooks-{}", if src.contains("pending: RwLock") { "pinned" } else { "snapshot" }))
         }
+        "c13.run" | "c13.force" if over_budget() && CACHE.lock().unwrap().as_ref().map(|m| !m.contains_key(&format!("{} {} {} {} {}", op, a[0], a[1], a[2], a[3]))).unwrap_or(true) && GEN_DEADLINE.lock().unwrap().is_some() => {
+            // the generator's wall-clock budget is used up: the remaining generated requests are not executed
+            Some("skipped:budget".into())
+        }
         "c13.run" => {
             if rx_algo() == "nohooks" { return Some("nohooks".into()); }
             let (Some(behs), Some(progs), Some(sched)) = (parse_obs(a[1]), parse_progs(a[2]), parse_sched(a[3])) else { return Some("bad-request".into()) };
@@ -479,11 +493,20 @@ pub fn exec(op: &str, a: &[&str]) -> Option<String> {
 /// every complete interleaving of a program, by stateless depth-first exploration of the real code
 fn all_interleavings(kind: &str, behs: &[Beh], progs: &[Vec<Op>], cap: usize, out: &mut Vec<String>) -> (usize, bool) { all_interleavings_mode(kind, behs, progs, cap, out, false) }
 
+/// wall-clock budget of one `gen` call: on a tree where runs leave threads asleep every run costs its teardown wait, and
+/// the enumeration must still end (what was explored until then is what is compared)
+static GEN_DEADLINE: Mutex<Option<(Instant, Duration)>> = Mutex::new(None);
+fn over_budget() -> bool { GEN_DEADLINE.lock().unwrap().map(|d| Instant::now() > d.0).unwrap_or(false) }
+fn per_program() -> Duration { GEN_DEADLINE.lock().unwrap().map(|d| d.1).unwrap_or(Duration::from_secs(3600)) }
+
 fn all_interleavings_mode(kind: &str, behs: &[Beh], progs: &[Vec<Op>], cap: usize, out: &mut Vec<String>, force: bool) -> (usize, bool) {
     let mut stack: Vec<Vec<usize>> = vec![vec![]];
     let mut n = 0usize;
+    let t_start = Instant::now();
     while let Some(prefix) = stack.pop() {
         if n >= cap { return (n, false); }
+        // each program gets its share of the budget, and the whole enumeration a hard end
+        if over_budget() || t_start.elapsed() > per_program() { return (n, false); }
         let r = run_mode(kind, behs, progs, &prefix, force);
         n += 1;
         let req = format!("{} {} {} {} {}", if force { "c13.force" } else { "c13.run" }, kind, fmt_obs(behs), fmt_progs(progs), fmt_sched(&r.choices));
@@ -511,6 +534,7 @@ fn random_prog(rng: &mut Rng, nthreads: usize, nops: usize, nobs: usize) -> Vec<
 
 pub fn gen(tier: &str, rng: &mut Rng, out: &mut Vec<String>) {
     let thorough = tier == "thorough";
+    *GEN_DEADLINE.lock().unwrap() = Some((Instant::now() + Duration::from_secs(if thorough { 5400 } else { 240 }), Duration::from_secs(if thorough { 900 } else { 15 })));
     out.push("c13.stress subject 8 100 20".into());
     out.push("c13.stress single 8 100 20".into());
     if rx_algo() == "nohooks" { return; }
